@@ -3,11 +3,12 @@
    assumptions printed.  Model: Model/Datum.v (printer), NumFmt.v, Lex.v, Parse.v,
    Heap.v.  The statements mention the parser, whose number-literal decoder contains
    Flocq binary64 computations, hence the standard real-number axioms in the reports. *)
-From Coq Require Import String ZArith List Bool.
+From Coq Require Import String ZArith List Bool Lia.
 From Flocq Require Import IEEE754.BinarySingleNaN.
 From MW Require Import Model.Base Model.F64 Model.Num Model.Digits Model.F64Fmt Model.NumFmt
   Model.Datum Model.Lex Model.Parse
-  Proofs.NumFmtProofs Proofs.WriteReadProofs.
+  Model.VmTypes Model.Heap Model.Gc
+  Proofs.NumFmtProofs Proofs.WriteReadProofs Proofs.WriteReadList Proofs.SymtabProofs Proofs.QuoteHeapProofs.
 Open Scope N_scope.
 
 (* ---------------------------------------------------------------- characters *)
@@ -100,6 +101,61 @@ Theorem C10_float_atom : C10_std_roundtrip_stmt -> C10_display_point_stmt -> C10
 Proof. exact atom_float. Qed.
 Print Assumptions C10_float_atom.
 
+(* ------------------------------------------------------- the composite theorem *)
+(* (e) [readable d]: booleans, characters, strings of scalar values, reader symbols, exact
+   numbers in every representation, finite doubles, (), pairs — hence proper and improper
+   lists and quote forms — and vectors of such, NESTED WITHOUT BOUND.
+   write_read: reading the written form gives the datum back (exact numbers in the
+   representation the reader produces: [reread_cell], same value and exactness by
+   C10_reread_same_number; floats bit-identical), and NOTHING remains.
+   Relative to the three statements about std's float formatting (used for float atoms
+   only; a datum without floats needs none of them, see C10_write_read_exact below). *)
+Theorem C10_write_read :
+  C10_std_roundtrip_stmt -> C10_display_point_stmt -> C10_no_inner_minus_stmt ->
+  forall d, readable d -> parse_text (write d) = Ok (reread_cell d, None).
+Proof. exact write_read. Qed.
+Print Assumptions C10_write_read.
+
+(* write_stable: writing the re-read datum gives the same text *)
+Theorem C10_write_stable : forall d, readable d -> write (reread_cell d) = write d.
+Proof. exact write_stable. Qed.
+Print Assumptions C10_write_stable.
+
+(* data whose exact numbers are in normal representation read back LITERALLY *)
+Theorem C10_reread_normal : forall d, normal d -> reread_cell d = d.
+Proof. exact reread_cell_normal. Qed.
+Print Assumptions C10_reread_normal.
+
+(* the invariant behind write_read, usable in any context: wherever the written form of d
+   stands in a text, followed by a delimiter, the scanner yields a block of tokens for it
+   and continues behind it, and the parser turns exactly that block into the datum *)
+Theorem C10_write_read_in_context :
+  C10_std_roundtrip_stmt -> C10_display_point_stmt -> C10_no_inner_minus_stmt ->
+  forall d, readable d -> wr_ok d (reread_cell d).
+Proof. intros H1 H2 H3 d Hr. exact (proj1 (readable_all_ok H1 H2 H3 d Hr)). Qed.
+Print Assumptions C10_write_read_in_context.
+
+(* ------------------------------------------------------------ datum <-> heap *)
+(* (d) quote_eval at the datum <-> heap level: on every heap satisfying the interning
+   invariant of C18, Heap::put_cell stores every heap datum (everything but the
+   print-only variants Continuation/Macro/Procedure, on which it panics) and
+   Heap::get_as_cell gives the datum back UNCHANGED, for every sufficient fuel *)
+Theorem C10_quote_heap_roundtrip : forall (bname : N -> text) d h s, heap_datum d -> heap_inv h ->
+  exists v h' s', put_cell h s d = Ok (v, h', s') /\ heap_inv h' /\
+    exists n, forall fuel, (n <= fuel)%nat -> get_as_cell bname h' s' fuel v = Ok d.
+Proof. exact put_get_roundtrip. Qed.
+Print Assumptions C10_quote_heap_roundtrip.
+
+(* OPEN (not proved; checked in-kernel on the examples below and on every case of wire
+   interface 8 by the correspondence check): evaluating (quote d) on the machine booted
+   with the prelude returns d.  The proved part is the heap round trip above; what is
+   missing is the trip through transform/compile/run (MOV_IMMEDIATE of the stored
+   pointer, HALT), which needs the VM invariants of C01. *)
+From MW Require Import Model.VmBase Model.Vm Model.Builtins Model.WireDatum.
+Definition C10_quote_eval_vm_stmt : Prop :=
+  forall s0 d, booted = Some s0 -> heap_datum d ->
+    exists s1, eval_cell (quote_form d) s0 = ROk (Done d) s1.
+
 (* ------------------------------------------------ the recorded defect class *)
 (* prefix-path-symbol: the reader produces, through the number-prefix path, a symbol
    that is not a reader symbol and whose written form reads back as something else *)
@@ -128,3 +184,35 @@ Qed.
 Example C10_example_exact :
   exact_wf (BigInt 5) /\ reread (BigInt 5) = Fixnum 5 /\ exact_wf (Rational (-2147483648) 3).
 Proof. repeat split; vm_compute; try reflexivity; discriminate. Qed.
+
+Example C10_example_composite :
+  let d := CVec [new_list [CSym QUOTE; CSym (S_ "a")]; new_improper_list [CChar 955; CStr [34; 10]] (CNum (BigInt 5));
+                 CNum (Rational (-1) 2); CNil; CBool true; CSym (S_ "...")] in
+  readable d /\ write d = S_ "#('a (#\" ++ [955] ++ S_ " ""\""\n"" . 5) -1/2 () #t ...)" /\
+  parse_text (write d) = Ok (reread_cell d, None) /\ reread_cell d <> d /\ write (reread_cell d) = write d.
+Proof.
+  cbv zeta. split; [|split; [|split; [|split]]].
+  - cbn. repeat split; try (repeat constructor; fail); try lia.
+    + eexists; eexists; split; [reflexivity|left; vm_compute; reflexivity].
+    + eexists; eexists; split; [reflexivity|left; vm_compute; reflexivity].
+    + eexists; eexists; split; [reflexivity|left; vm_compute; reflexivity].
+  - vm_compute. reflexivity.
+  - vm_compute. reflexivity.
+  - vm_compute. discriminate.
+  - vm_compute. reflexivity.
+Qed.
+Example C10_example_heap :
+  let d := CVec [new_list [CSym QUOTE; CSym (S_ "a")]; new_improper_list [CChar 955; CStr [34; 10]] (CNum (BigInt 5))] in
+  heap_datum d /\ heap_inv (heap_new 8192) /\
+  match put_cell (heap_new 8192) store_empty d with
+  | Ok (v, h, s) => get_as_cell (fun _ => []) h s 20 v = Ok d
+  | _ => False
+  end.
+Proof. cbv zeta. split; [cbn; tauto|]. split; [apply heap_inv_new; reflexivity|vm_compute; reflexivity]. Qed.
+(* the model machine booted with the prelude evaluates (quote d) to d: the wire line of
+   interface 8 shows the dump of d twice (also for the prefix-path symbol 12) *)
+Example C10_example_quote_eval_vm :
+  let d := CVec [new_list [CSym QUOTE; CSym (S_ "a")]; new_improper_list [CChar 955; CStr [34; 10]] (CNum (BigInt 5));
+                 CNum (Float (f64_of_bits 0x3ff8000000000000)); CSym (S_ "12")] in
+  run_quote_eval d = S_ "I" ++ dump d ++ S_ " Q" ++ dump d.
+Proof. vm_compute. reflexivity. Qed.
